@@ -74,7 +74,7 @@ void run(Ctx &ctx, const std::string &w)
             vt::Delay delay(s ^ ((uint64_t)t << 22) ^ 0x85EBCA6B, pdly);
             for (uint32_t id = 1; id <= (uint32_t)items && !fail.any(); ++id) {
                 const Item it = mkItem(id);
-                for (long spins = 0;; ++spins) {
+                for (;;) {
                     try {
                         if (verif_canary_queue_push(p.q, &it, p.reader)) {
                             ++p.notificationsSent;
@@ -83,21 +83,25 @@ void run(Ctx &ctx, const std::string &w)
                         break;
                     } catch (const Ipc::OneToOneUniQueue::Full &) {
                         ++p.fullRetries;
-                        sched_yield();
-                        if (fail.any()) { p.producerDone.store(true, std::memory_order_release); return; }
-                        // Deadlock test. We are the only sender and every notification we owe has been posted, so the
-                        // in-flight count can only go down. Zero now, (read afterwards) the consumer asleep, and (read after
-                        // that) the queue still full, i.e. nothing was popped since our push() threw: the consumer fell asleep
-                        // before that and is waiting for a notification that will never be sent.
-                        if (p.notificationsInFlight.load(std::memory_order_acquire) == 0 && p.asleep.load(std::memory_order_acquire) && p.q->full()) {
-                            fail("queue:lost-wakeup", "pair " + std::to_string(t / 2) + ": consumer is asleep with " + std::to_string(p.q->size()) + " item(s) queued (queue full), no notification in flight and none owed");
-                            p.producerDone.store(true, std::memory_order_release);
-                            return;
-                        }
-                        if ((spins & 1023) == 1023 && std::chrono::steady_clock::now() > deadline) {
-                            fail("queue:producer-starved", "queue of pair " + std::to_string(t / 2) + " stays full: its consumer made no progress for 60 s");
-                            p.producerDone.store(true, std::memory_order_release);
-                            return;
+                        // wait for room (polling the atomic size, not throwing again) before the next attempt
+                        for (long spins = 0;; ++spins) {
+                            sched_yield();
+                            if (fail.any()) { p.producerDone.store(true, std::memory_order_release); return; }
+                            if (!p.q->full()) break;
+                            // Deadlock test. We are the only sender and every notification we owe has been posted, so the
+                            // in-flight count can only go down. Zero now, (read afterwards) the consumer asleep, and (read after
+                            // that) the queue still full, i.e. nothing was popped since our push() threw: the consumer fell asleep
+                            // before that and is waiting for a notification that will never be sent.
+                            if (p.notificationsInFlight.load(std::memory_order_acquire) == 0 && p.asleep.load(std::memory_order_acquire) && p.q->full()) {
+                                fail("queue:lost-wakeup", "pair " + std::to_string(t / 2) + ": consumer is asleep with " + std::to_string(p.q->size()) + " item(s) queued (queue full), no notification in flight and none owed");
+                                p.producerDone.store(true, std::memory_order_release);
+                                return;
+                            }
+                            if ((spins & 1023) == 1023 && std::chrono::steady_clock::now() > deadline) {
+                                fail("queue:producer-starved", "queue of pair " + std::to_string(t / 2) + " stays full: its consumer made no progress for 60 s");
+                                p.producerDone.store(true, std::memory_order_release);
+                                return;
+                            }
                         }
                     }
                 }
